@@ -19,10 +19,21 @@ its initialisation, before it is marked initialised, and removed when its stream
 The `Pipe` state keeps the stage models side by side; an event of the pipe is an event of one stage,
 plus the hand-overs: `recv` moves the head of the channel into the debounce loop, `startPush`
 allocates the request object that `pushFn` was entered with and enqueues that **one shared object**
-for every registered connection.  `seen c` is the history of what reached `Event.pushRequest` of
-connection `c`'s stream loop.
+for every registered connection.
+
+Histories are **logs since the last `mark`** (`accepted`, `recvS`, `pushS`, `enqLog`, `seenLog`,
+`dropLog`): `mark` is a ghost event that empties them and changes nothing else.  A statement about
+the logs therefore speaks about *what was accepted since any chosen moment* against *what was
+delivered since that moment* - a notification repeating keys that were delivered before the mark has
+to arrive again.
 -/
 namespace IstioModel.C02
+
+/-- A log entry: connection, snapshot (push context version) of the request, what the request says. -/
+abbrev LogE := Conn × Option Nat × List Fact
+
+/-- Everything the log says about connection `c`. -/
+def logOf (l : List LogE) (c : Conn) : List Fact := (l.filter (fun e => e.1 == c)).flatMap (·.2.2)
 
 structure Pipe where
   opts      : DOpts := { after := 1, max := 10, eds := true }
@@ -32,10 +43,13 @@ structure Pipe where
   snd       : Sender := {}               -- push queue (with the heap of request objects) + sender
   conns     : List Conn := []            -- `adsClients` / `AllClients()`
   version   : Nat := 0                   -- push context versions handed out by `s.Push`
-  seen      : Conn → List Fact := fun _ => []   -- facts of every `Event.pushRequest` received by c's stream loop
-  accepted  : List View := []            -- every request `ConfigUpdate` put into the channel (history)
-  enqd      : Conn → List Fact := fun _ => []   -- facts of every request `StartPush` enqueued for c while the queue accepted (history)
-  dropped   : Conn → List Fact := fun _ => []   -- facts of push events of c given up by a closed-stream / server-stop exit (history)
+  -- logs since the last `mark` (append-only in between)
+  accepted  : List View := []            -- requests `ConfigUpdate` put into the channel
+  recvS     : List Fact := []            -- facts of requests the debounce loop took from the channel
+  pushS     : List Fact := []            -- facts of requests handed to `pushFn`
+  enqLog    : List LogE := []            -- (c, snapshot, facts) of every request `StartPush` enqueued for c while the queue accepted
+  seenLog   : List LogE := []            -- (c, snapshot, facts) of every `Event.pushRequest` received by c's stream loop
+  dropLog   : List LogE := []            -- push events of c given up by a closed-stream / server-stop exit
 
 def chanCap : Nat := 10
 
@@ -79,6 +93,7 @@ inductive PEv
   | snd (e : SEv)               -- sender, stream loops, clients closing, server stop (not `enq`)
   | register (c : Conn)         -- `addCon`
   | unregister (c : Conn)       -- `removeCon`
+  | mark                        -- ghost: start the logs afresh (no effect on the system)
 
 def isRecv : Ev → Bool
   | .recv _ => true
@@ -94,6 +109,12 @@ def flightFacts (s : Sender) (c : Conn) : List Fact :=
   | some (f, _) => facts s.q.heap f.2
   | none => []
 
+/-- ... and its snapshot. -/
+def flightPush (s : Sender) (c : Conn) : Option Nat :=
+  match takeFlight c s.parked with
+  | some (f, _) => (viewAt s.q.heap f.2).bind (·.push)
+  | none => none
+
 def stepP (p : Pipe) : PEv → Option Pipe
   | .configUpdate v =>
     if p.chan.length < chanCap then some { p with chan := p.chan ++ [v], accepted := p.accepted ++ [v] } else none
@@ -101,19 +122,22 @@ def stepP (p : Pipe) : PEv → Option Pipe
     match p.chan with
     | v :: rest =>
       match stepD p.opts p.db (.recv v) with
-      | some db' => some { p with chan := rest, db := db', toStart := p.toStart ++ newPushes p.db db' }
+      | some db' => some { p with chan := rest, db := db', toStart := p.toStart ++ newPushes p.db db'
+                                  recvS := p.recvS ++ factsV v, pushS := p.pushS ++ (newPushes p.db db').flatMap factsV }
       | none => none
     | [] => none
   | .deb e =>
     if isRecv e then none
     else match stepD p.opts p.db e with
-      | some db' => some { p with db := db', toStart := p.toStart ++ newPushes p.db db' }
+      | some db' => some { p with db := db', toStart := p.toStart ++ newPushes p.db db'
+                                  pushS := p.pushS ++ (newPushes p.db db').flatMap factsV }
       | none => none
   | .startPush =>
     match p.toStart with
     | v :: rest =>
       some { p with toStart := rest, version := p.version + 1
-                    enqd := fun c => if p.snd.q.down || !p.conns.contains c then p.enqd c else p.enqd c ++ factsV v
+                    enqLog := if p.snd.q.down then p.enqLog
+                              else p.enqLog ++ p.conns.map (fun c => (c, some (p.version + 1), factsV v))
                     snd := { p.snd with q := enqueueAll { p.snd.q with heap := allocView p.snd.q.heap (prepPush (p.version + 1) v) }
                                                         p.snd.q.heap.reqs.length p.conns } }
     | [] => none
@@ -122,13 +146,14 @@ def stepP (p : Pipe) : PEv → Option Pipe
     else match stepS p.snd e with
       | some s' =>
         match e with
-        | .deliver c => some { p with snd := s', seen := fun c' => if c' = c then p.seen c ++ flightFacts p.snd c else p.seen c' }
-        | .closedExit c => some { p with snd := s', dropped := fun c' => if c' = c then p.dropped c ++ flightFacts p.snd c else p.dropped c' }
-        | .stopExit c => some { p with snd := s', dropped := fun c' => if c' = c then p.dropped c ++ flightFacts p.snd c else p.dropped c' }
+        | .deliver c => some { p with snd := s', seenLog := p.seenLog ++ [(c, flightPush p.snd c, flightFacts p.snd c)] }
+        | .closedExit c => some { p with snd := s', dropLog := p.dropLog ++ [(c, flightPush p.snd c, flightFacts p.snd c)] }
+        | .stopExit c => some { p with snd := s', dropLog := p.dropLog ++ [(c, flightPush p.snd c, flightFacts p.snd c)] }
         | _ => some { p with snd := s' }
       | none => none
   | .register c => some { p with conns := if p.conns.contains c then p.conns else p.conns ++ [c] }
   | .unregister c => some { p with conns := p.conns.filter (· ≠ c) }
+  | .mark => some { p with accepted := [], recvS := [], pushS := [], enqLog := [], seenLog := [], dropLog := [] }
 
 def runP (p : Pipe) : List PEv → Option Pipe
   | [] => some p
